@@ -154,3 +154,12 @@ Proof. vm_compute. reflexivity. Qed.
 Example ex_keys_sorted : map (fun k : list Z => length k) (isort str_ltb [[98]; [97; 97]; [97]])
                        = map (fun k : list Z => length k) (isort str_ltb [[97]; [98]; [97; 97]]).
 Proof. vm_compute. reflexivity. Qed.
+
+(* the location filter really rejects an absolute/log-style path expression *)
+From Coq Require Import String.
+From V Require Import gen.HashPathsGen C08.HashPaths.
+Example ex_location_free : location_free "file.InputFile.Source.PrettyPaths.Rel"%string = true
+  /\ location_free "file.InputFile.Source.PrettyPaths.Select(c.options.LogPathStyle)"%string = false
+  /\ location_free "file.InputFile.Source.PrettyPaths.Abs"%string = false.
+Proof. repeat split; vm_compute; reflexivity. Qed.
+Example ex_hash_defs : List.length hash_operand_definitions = 4%nat. Proof. vm_compute. reflexivity. Qed.
